@@ -27,7 +27,8 @@ ASSUMPTIONS = [
     "each fault class is first run on its own: the in-memory API must reject it (otherwise the class itself is reported)",
     "semantic faults are only inserted where the statement is always expanded (top level, blocks, named scopes), syntax faults anywhere",
 ]
-WEIGHTS = dict(ins=6, data=5, label=4, block=2, scope=1, macro=0.8, call=1.5, for_=0.8, if_=0.6, assign=1, sym=0.8, org=0.8, reloc=0.2, ascii=0.6, branch=0.0)
+WEIGHTS = dict(ins=6, data=5, label=4, block=2, scope=1, macro=0.8, call=1.5, for_=0.8, if_=0.6, assign=1, sym=0.8, org=0.8, reloc=0.2, ascii=0.6, branch=0.0,
+               table=0.2, text=0.4, incbin=0.3, include_ips=0.15)
 
 FAULTS = {
     "invalid_character": ("syntax", "!!!"),
